@@ -204,9 +204,19 @@ def r3_type_wide_enough(ctx):
         ctx.ok(f.qual + "#user-type", "no user-selected type path", where=f, node=c)
     else:
         cn = [n for n in g.nodes if n.ast is not None and n.kind == "stmt" and contains(n.ast, c)]
+        # names that stand for the selected type: the converter's argument and what it was copied from
+        aliases = {dvar}
+        grew = True
+        while grew:
+            grew = False
+            for a_ in list(aliases):
+                for _, v_ in local_defs(f, a_):
+                    if isinstance(v_, ast.Name) and v_.id not in aliases:
+                        aliases.add(v_.id)
+                        grew = True
         guards = []
         for gd in raising_ifs(f.node):
-            if dvar in names_in(gd.test) and any(pol and norm(t) == f.params[1] for t, pol in enclosing_tests(gd)):
+            if aliases & names_in(gd.test) and any(pol and norm(t) == f.params[1] for t, pol in enclosing_tests(gd)):
                 guards.append(gd)
         # exhaustive evaluation
         bad = None
@@ -215,10 +225,11 @@ def r3_type_wide_enough(ctx):
             for bits in range(1, 65):
                 for w in (8, 16, 32, 64):
                     d = _DT(kind, w)
-                    env = {"bit_resolution": bits, dvar: d}
+                    env = {"bit_resolution": bits}
+                    env.update({a_: d for a_ in aliases})
                     raised = False
                     for gd in guards:
-                        t = gd.test
+                        t = expand(f, gd.test, _seen=set(aliases) | {"bit_resolution"})
                         # type-kind guards (issubclass(d_type.type, np.integer)) never fire for integer types
                         if "issubclass" in norm(t):
                             continue
@@ -256,9 +267,28 @@ def _sar_facts(ctx, f):
     facts["loop"] = norm(lp.iter)
     iv = lp.target.id if isinstance(lp.target, ast.Name) else None
     # reference variable: the name halved in the loop
-    halv = [s for s in lp.body if isinstance(s, ast.AugAssign) and isinstance(s.op, ast.Div) and norm(s.value) in ("2.0", "2")]
+    def _is_halving(s):
+        if isinstance(s, ast.AugAssign) and isinstance(s.op, ast.Div) and norm(s.value) in ("2.0", "2"):
+            return True
+        if isinstance(s, ast.AugAssign) and isinstance(s.op, ast.Mult) and norm(s.value) == "0.5":
+            return True
+        # x = x / 2.0   |   x = x * 0.5   |   x = 0.5 * x
+        if isinstance(s, (ast.Assign, ast.AnnAssign)) and getattr(s, "value", None) is not None:
+            t = s.targets[0] if isinstance(s, ast.Assign) else s.target
+            v = s.value
+            if isinstance(t, ast.Name) and isinstance(v, ast.BinOp):
+                if isinstance(v.op, ast.Div) and dotted(v.left) == t.id and norm(v.right) in ("2.0", "2"):
+                    return True
+                if isinstance(v.op, ast.Mult) and {norm(v.left), norm(v.right)} == {t.id, "0.5"}:
+                    return True
+        return False
+
+    def _tgt(s):
+        return s.target if isinstance(s, (ast.AugAssign, ast.AnnAssign)) else s.targets[0]
+
+    halv = [s for s in lp.body if _is_halving(s)]
     facts["halvings"] = len(halv)
-    ref = dotted(halv[0].target) if halv else None
+    ref = dotted(_tgt(halv[0])) if halv else None
     facts["halving_last"] = bool(halv) and lp.body[-1] is halv[-1]
     init = [v for s_, v in local_defs(f, ref) if v is not None and not contains(lp, s_)] if ref else []
     it = norm(init[0]) if init else None
@@ -266,7 +296,7 @@ def _sar_facts(ctx, f):
         it = norm(kw(init[0], "fill_value"))
     facts["ref_init"] = it
     dv = [v for s_, v in local_defs(f, "digital_value") if v is not None]
-    facts["weight"] = norm(dv[0]) if dv else None
+    facts["weight"] = norm(expand(lp, dv[0])) if dv else None
     # masks
     masks = []
     add_ok = sub_ok = False
@@ -284,10 +314,16 @@ def _sar_facts(ctx, f):
                     masks.append((dotted(s.target), type(s.op).__name__, mk[0] if mk else None, other[0] if other else None))
     facts["masks"] = masks
     facts["ref"] = ref
+    if facts["weight"] is None:
+        # the weight is whatever is added to the code array under the mask
+        for s in lp.body:
+            if isinstance(s, ast.AugAssign) and isinstance(s.op, ast.Add) and dotted(_tgt(s) if not isinstance(s.target, ast.Subscript) else s.target.value) != ref:
+                facts["weight"] = norm(expand(lp, s.value))
+                break
     rets = [r for r in returns_of(f) if r.value is not None]
     facts["cast"] = norm(expand(f, rets[0].value)) if rets else None
     # perturbations of the reference
-    pert = [s for s in lp.body if isinstance(s, ast.AugAssign) and dotted(s.target) == ref and not (isinstance(s.op, ast.Div))]
+    pert = [s for s in lp.body if isinstance(s, ast.AugAssign) and dotted(s.target) == ref and not _is_halving(s)]
     facts["perturbations"] = [(type(s.op).__name__, norm(expand(lp, s.value))) for s in pert]
     facts["random_calls"] = [norm(c_) for c_ in calls_in(f.node) if "random" in call_name(c_)]
     return facts, lp
@@ -299,7 +335,7 @@ def r4_sar_siblings(ctx):
     b = ctx.func(f"{RE}.sar_adc_with_noise:apply_sar_adc_with_noise")
     fa, lpa = _sar_facts(ctx, a)
     fb, lpb = _sar_facts(ctx, b)
-    for f, ft in ((a, fa), (b, fb)):
+    for f, ft, lp_ in ((a, fa, lpa), (b, fb, lpb)):
         ok = ft["ref_init"] in ("max_volt / 2.0", "max_volt / 2")
         ctx.check(ok, f.qual + "#ref-init", "reference starts at max_volt / 2" if ok else f"reference starts at {ft['ref_init']}", where=f, node=f.node)
         ok = ft["loop"] in ("np.arange(adc_bits)", "range(adc_bits)")
@@ -328,8 +364,12 @@ def r4_sar_siblings(ctx):
         if ok:
             ref = ft["ref"]
             same = adds[0][2] == subs[0][2]
-            ge = adds[0][2] is not None and adds[0][2].replace(" ", "") == f"signal_normalized_2d>={ref}"
-            val_ok = adds[0][3] in ("digital_value", ft["weight"]) and subs[0][3] == ref and subs[0][0] == "signal_normalized_2d"
+            resid = subs[0][0]  # the array the reference is subtracted from IS the residual that is compared
+            ge = adds[0][2] is not None and resid is not None and adds[0][2].replace(" ", "") == f"{resid}>={ref}"
+            val_ok = (adds[0][3] in ("digital_value", ft["weight"]) or norm(expand(lp_, ast.parse(adds[0][3], mode="eval").body)) == ft["weight"]) and subs[0][3] == ref and adds[0][0] != resid
+            # the residual starts as (a copy of) the signal frame
+            rdefs = [norm(v) for s_, v in local_defs(f, resid or "") if v is not None and not isinstance(s_, ast.AugAssign)]
+            val_ok = val_ok and len(rdefs) == 1 and rdefs[0] in ("signal_2d.copy()", "np.copy(signal_2d)", "np.array(signal_2d)", "signal_2d.astype(float)", "np.array(signal_2d, dtype=float)")
             ok = same and ge and val_ok
             why = "one mask `signal >= reference` sets the bit and subtracts the reference" if ok else (f"the bit is set under `{adds[0][2]}` but the reference is subtracted under `{subs[0][2]}`" if not same else f"mask/values: add {adds[0]}, sub {subs[0]}")
         ctx.check(ok, f.qual + "#mask", why, where=f, node=f.node)
